@@ -544,6 +544,7 @@ pub fn rec_wire_build(args: &Args) {
             ev_to_bytes(&mut out, &p, Some(None));
         }
     }
+    hdr_ser_events(&mut out);
     // large messages through the unlimited entry point, and what the parser makes of the bytes
     for p in large_messages(&mut r).iter() {
         ev_to_bytes(&mut out, p, Some(None));
@@ -780,6 +781,27 @@ fn large_messages(r: &mut Rng) -> Vec<Packet> {
     v
 }
 
+/// the public HeaderRaw::serialize_into on buffers of every fill state: it appends the four header bytes
+/// (refusing a buffer whose capacity is below 4), and never leaves len above capacity
+fn hdr_ser_events(out: &mut Out) {
+    for cap_extra in [0usize, 1, 2, 3, 4, 5, 8] {
+        for len in [0usize, 1, 2, 3, 4, 6, 9] {
+            let mut buf: Vec<u8> = Vec::with_capacity(len + cap_extra);
+            buf.extend((0..len).map(|i| 0xC0 + i as u8));
+            let cap = buf.capacity();
+            let pre = buf.clone();
+            let raw = coap_lite::HeaderRaw::try_from(&[0x48 + (len as u8 % 4), 0x45, (len as u8) ^ 0x5A, cap_extra as u8][..]).unwrap();
+            let res = guarded(|| { let mut b = buf; let r = raw.serialize_into(&mut b); (r.is_ok(), b.len() <= b.capacity(), b) });
+            let o = match res {
+                None => json!({"k": "panic"}),
+                Some((true, fits, b)) => json!({"k": "ok", "bytes": jbytes(&b), "fits": fits}),
+                Some((false, fits, b)) => json!({"k": "err", "bytes": jbytes(&b), "fits": fits}),
+            };
+            out.ev(json!({"op": "hdr_ser", "pre": jbytes(&pre), "cap": cap, "hdr": [0x48 + (len as u8 % 4), 0x45, (len as u8) ^ 0x5A, cap_extra as u8], "out": o}));
+        }
+    }
+}
+
 pub fn rec_wire_limit(args: &Args) {
     let seed = args.u("seed", 1);
     let thorough = args.thorough();
@@ -845,24 +867,7 @@ pub fn rec_wire_limit(args: &Args) {
             }
         }
     }
-    // the public HeaderRaw::serialize_into on buffers of every fill state: it appends the four header bytes
-    // (refusing a buffer whose capacity is below 4), and never leaves len above capacity
-    for cap_extra in [0usize, 1, 2, 3, 4, 5, 8] {
-        for len in [0usize, 1, 2, 3, 4, 6, 9] {
-            let mut buf: Vec<u8> = Vec::with_capacity(len + cap_extra);
-            buf.extend((0..len).map(|i| 0xC0 + i as u8));
-            let cap = buf.capacity();
-            let pre = buf.clone();
-            let raw = coap_lite::HeaderRaw::try_from(&[0x48 + (len as u8 % 4), 0x45, (len as u8) ^ 0x5A, cap_extra as u8][..]).unwrap();
-            let res = guarded(|| { let mut b = buf; let r = raw.serialize_into(&mut b); (r.is_ok(), b.len() <= b.capacity(), b) });
-            let o = match res {
-                None => json!({"k": "panic"}),
-                Some((true, fits, b)) => json!({"k": "ok", "bytes": jbytes(&b), "fits": fits}),
-                Some((false, fits, b)) => json!({"k": "err", "bytes": jbytes(&b), "fits": fits}),
-            };
-            out.ev(json!({"op": "hdr_ser", "pre": jbytes(&pre), "cap": cap, "hdr": [0x48 + (len as u8 % 4), 0x45, (len as u8) ^ 0x5A, cap_extra as u8], "out": o}));
-        }
-    }
+    hdr_ser_events(&mut out);
     // header replaced after set_token (the header is a public field): its token-length nibble then
     // disagrees with the stored token; the limit still applies to the bytes actually sent
     for tl in [0usize, 1, 4, 8] {
